@@ -138,6 +138,14 @@ cfg_not_miri! {
                     (event.event, event.time)
                 }
 
+                pub(crate) fn fetch_next_if(
+                    &mut self,
+                    pred: impl FnOnce(SimTime) -> bool,
+                ) -> Option<(A::EventSet, SimTime)> {
+                    let next = self.zero_queue.front().or(self.heap.peek())?.time;
+                    pred(next).then(|| self.fetch_next())
+                }
+
                 #[allow(clippy::needless_pass_by_value)]
                 pub(crate) fn add(
                     &mut self,
@@ -211,6 +219,16 @@ cfg_not_miri! {
 
                     let (event, time) = self.inner.fetch_next();
                     (event, SimTime::from_duration(time))
+                }
+
+                pub(crate) fn fetch_next_if(
+                    &mut self,
+                    pred: impl FnOnce(SimTime) -> bool,
+                ) -> Option<(A::EventSet, SimTime)> {
+                    let (event, time) = self
+                        .inner
+                        .fetch_next_if(|time| pred(SimTime::from_duration(time)))?;
+                    Some((event, SimTime::from_duration(time)))
                 }
 
                 #[allow(clippy::needless_pass_by_value)]
@@ -365,6 +383,14 @@ cfg_miri! {
                 };
 
                 (event.event, event.time)
+            }
+
+            pub(crate) fn fetch_next_if(
+                &mut self,
+                pred: impl FnOnce(SimTime) -> bool,
+            ) -> Option<(A::EventSet, SimTime)> {
+                let next = self.zero_queue.front().or(self.heap.peek())?.time;
+                pred(next).then(|| self.fetch_next())
             }
 
             #[allow(clippy::needless_pass_by_value)]
